@@ -392,7 +392,36 @@ def obs_shape(fn):
         return '(ISE %s)' % _err(e), None
 
 
-def make_case(sp, node, x, y, sigma):
+def _has_linear_defconj(f):
+    """does the class tree of f contain a DefaultConvexConjugate of a functional flagged linear?"""
+    from odl.solvers.functional import functional as FF
+    import odl
+    D = odl.solvers.functional.default_functionals
+    if f is None:
+        return False
+    if isinstance(f, FF.BregmanDistance):
+        return _has_linear_defconj(f._BregmanDistance__bregman_dist)
+    if isinstance(f, FF.FunctionalDefaultConvexConjugate):
+        return bool(f.convex_conj.is_linear) or _has_linear_defconj(f.convex_conj)
+    kids = []
+    for attr in ('functional', 'left', 'right'):
+        k = getattr(f, attr, None)
+        if isinstance(k, FF.Functional):
+            kids.append(k)
+    if isinstance(f, D.SeparableSum):
+        kids += list(f.functionals)
+    return any(_has_linear_defconj(k) for k in kids)
+
+
+def defconj_flag_repaired():
+    """variant of finding defaultconj-linear-flag exhibited by the code under test: True when
+    FunctionalDefaultConvexConjugate no longer inherits is_linear (the model describes the inherited flag)."""
+    import odl
+    from odl.solvers.functional import functional as FF
+    return not FF.FunctionalDefaultConvexConjugate(odl.solvers.ZeroFunctional(odl.rn(1))).is_linear
+
+
+def make_case(sp, node, x, y, sigma, repaired=False):
     f = node.obj
     X, Y = sp.elem(x), sp.elem(y)
     shp, _ = obs_shape(lambda: f)
@@ -401,6 +430,10 @@ def make_case(sp, node, x, y, sigma):
         ccshp, fcc = obs_shape(lambda: fc.convex_conj)
     else:
         ccshp, fcc = cshp, None
+    if repaired and any(_has_linear_defconj(g) for g in (f, fc, fcc)):
+        # the code under test has the repaired linear flag of the default conjugate; the model
+        # (and the refuted biconjugate statement) describe the inherited flag: not comparable
+        return None, None
     val = obs_val(lambda: f(X))
     cval = obs_val(lambda: fc(Y)) if fc is not None else 'ISkip'
     ccval = obs_val(lambda: fcc(X)) if fcc is not None else 'ISkip'
@@ -449,6 +482,7 @@ def correspondence(rng, tier):
     import warnings
     warnings.simplefilter('ignore')
     np.seterr(all='ignore')
+    repaired = defconj_flag_repaired()
     for i in range(ntree):
         sp = gen_space(rng)
         depth = rng.choice(list(range(maxd + 1)))
@@ -459,7 +493,9 @@ def correspondence(rng, tier):
             continue
         for _ in range(1 if depth == 0 else 2):
             x, y, sigma = gen_points(rng, sp)
-            term, desc = make_case(sp, node, x, y, sigma)
+            term, desc = make_case(sp, node, x, y, sigma, repaired)
+            if term is None:
+                continue
             cs.add(term, desc, (sp.kind, node.coq, tuple(x), tuple(y), sigma) if node.derived else None)
     return [cs]
 
@@ -698,6 +734,14 @@ def class_probes(rng, tier, out):
             run('QuadMatrix-nonsym', kind, sctor,
                 'F.QuadraticForm(odl.MatrixOperator(np.array([[1., 1., 0.], [-1., 1., 0.], [0., 0., 1.]])))',
                 ('fy', 'grad-eq'), key='quadraticform-conj-nonsymmetric')
+    # scaled sums of functionals flagged linear: the default conjugate inherits the linear flag
+    for kind, sctor in spaces[:2]:
+        run('scaled-linear-sum', kind, sctor,
+            '2.0 * (F.QuadraticForm(vector=S.one()) + F.ZeroFunctional(S))', ('biconj',),
+            key='defaultconj-linear-flag')
+        run('scaled-linear-sum-right', kind, sctor,
+            '(F.QuadraticForm(vector=S.one()) + F.QuadraticForm(vector=2 * S.one())) * 4.0', ('biconj',),
+            key='defaultconj-linear-flag')
     for kind, sctor in pspaces:
         for e in (1, 2):
             run('GroupL1-%d' % e, kind, sctor, 'F.GroupL1Norm(S, %d)' % e, allc)
